@@ -97,11 +97,17 @@ def run(ctx):
     from vf import model
     from vf.props import c11
     model.check_analysis()
-    for idx in ctx.cases(quick=110, thorough=450):
+    for idx in ctx.cases(quick=150, thorough=500):
         rng = ctx.rng(idx)
         ctx.reseed_global(idx)
         h = model.gen_history(rng, ndocs=(5, 70) if rng.random() < 0.6 else (60, 200), boosts="fractional", maxlen=8, burst=rng.choice([0.0, 0.05, 0.15]))
         h["blocklimit"] = rng.choice([2, 2, 4, 16, 128])
+        staged = (idx % 4 == 2)
+        if staged:
+            # long flat multi-block posting lists with a few strong documents early and late (as in C05): the binary matchers'
+            # block skipping has something to skip, and every pair of frequent words is driven through threshold programs
+            h = model.gen_staged_history(rng)
+            ctx.count("c12.staged_cases")
         if idx % 7 == 3 and len(h["commits"]) > 1:
             h["front"] = "serialmp-optimize"     # see vf.model.build
             ctx.count("c12.serialmp_optimize_builds")
@@ -121,5 +127,18 @@ def run(ctx):
                 leaf_blocks(ctx, rng, s, wname, wb)
                 for _ in range(10):
                     c11.one_query(ctx, rng, built, s, wb, mode="c12")
+                if staged:
+                    from whoosh import query as _q
+                    prng = ctx.rng(idx, "pair-sweep")
+                    ws = model.VOCAB[:4]
+                    for a in ws:
+                        for b in ws:
+                            if a != b:
+                                ta = _q.Term("t", a, boost=prng.choice([1.0, 1.0, 2.0, 3.0]))
+                                tb = _q.Term("t", b)
+                                qq = prng.choice([_q.And, _q.And, _q.Or, _q.AndMaybe, _q.Require])
+                                qq = qq([ta, tb]) if qq in (_q.And, _q.Or) else qq(ta, tb)
+                                ctx.count("c12.pair_sweep_queries")
+                                c11.one_query(ctx, prng, built, s, wb, mode="c12", q=qq)
         finally:
             built.close()
